@@ -5,7 +5,9 @@
      sigdecode_der(blob[:-1], use_broken_open_ssl_mechanism=True) succeeds on it with r = BE(R), s = BE(S);
    * strict_flags_never_unparsed: hence with one of those flags set the "unparseable signature matches no key"
      path of checksigs is dead;
-   * low_s_decision: under LOW_S the number compared with the group order is the S field of the strict layout. *)
+   * low_s_decision: under LOW_S a parsed signature has r or s outside the group order (check_low_der_signature
+     returns early: it simply fails to verify later) or s <= order - s, r and s being the R and S fields of the
+     strict layout. *)
 From Coq Require Import Lia ZifyBool ZifyNat ZifyN.
 From PV Require Import Base.Bytes Base.Outcome Gen.GenFlags Model.Der Spec.VMTypes Model.VMpy.
 From PV Require Import Proofs.DerP.
@@ -144,14 +146,14 @@ Proof.
     as [[]| |e|]; cbn [vbind]; try discriminate.
   destruct (valid_signature_lax_parse _ Ev) as (L & rl & R & sl & S & ht & _ & _ & _ & Hp).
   rewrite Hp. destruct (flag_set flags VERIFY_LOW_S); [|discriminate].
-  destruct (_ <? _)%Z; discriminate.
+  destruct (_ || _); [discriminate|]. destruct (_ <? _)%Z; discriminate.
 Qed.
 
 (* and under LOW_S the value compared with the group order is the S field of the strict layout *)
 Theorem low_s_decision o flags sig r s :
   flag_set flags VERIFY_LOW_S = true ->
   parse_and_check_signature_blob o flags sig = VOk (Some (r, s)) ->
-  (s <= Z.of_N (o_order o) - s)%Z /\
+  ((Z.of_N (o_order o) <= r)%Z \/ (Z.of_N (o_order o) <= s)%Z \/ (s <= Z.of_N (o_order o) - s)%Z) /\
   exists L rl R sl S ht, sig = x30 :: L :: x02 :: rl :: R ++ x02 :: sl :: S ++ [ht] /\
     length R = N.to_nat (b2n rl) /\ length S = N.to_nat (b2n sl) /\
     r = Z.of_N (be_decode R) /\ s = Z.of_N (be_decode S).
@@ -168,7 +170,10 @@ Proof.
     as [[]| |e|]; cbn [vbind] in H; try discriminate.
   destruct (valid_signature_lax_parse _ Ev) as (L & rl & R & sl & S & ht & E & HR & HS & Hp).
   rewrite Hp, Hl in H.
-  destruct (Z.of_N (o_order o) - Z.of_N (be_decode S) <? Z.of_N (be_decode S))%Z eqn:Ec; [discriminate|].
+  destruct ((Z.of_N (o_order o) <=? Z.of_N (be_decode R))%Z || (Z.of_N (o_order o) <=? Z.of_N (be_decode S))%Z) eqn:Eo.
+  - inversion H; subst r s. split; [lia|].
+    exists L, rl, R, sl, S, ht. repeat split; assumption.
+  - destruct (Z.of_N (o_order o) - Z.of_N (be_decode S) <? Z.of_N (be_decode S))%Z eqn:Ec; [discriminate|].
   inversion H; subst r s. split; [lia|].
   exists L, rl, R, sl, S, ht. repeat split; assumption.
 Qed.
